@@ -4,8 +4,7 @@
 //! run's verdict depends only on that value and the code, so the worker count cannot change it.
 
 use std::collections::{BTreeMap, BTreeSet};
-use std::sync::atomic::{AtomicBool, AtomicU64, Ordering};
-use std::sync::Mutex;
+use std::sync::atomic::Ordering;
 use std::time::Instant;
 
 use serde::de::DeserializeOwned;
@@ -119,97 +118,232 @@ pub struct BatchResult {
     pub capped: bool,
     pub harness_error: Option<String>,
     pub log_digest: u64,
+    /// merged accounting of all workers (raw form, see acct_raw_json)
+    pub acct: Value,
+    pub extra: Value,
 }
 
-/// Execute runs 0..plan.runs. Every failing run is collected (first occurrence of each signature,
-/// by lowest run index) so that listed known findings do not hide a different violation.
-pub fn run_batch<W: Workload>(w: &W, tier: Tier, base_seed: u64, plan: &BatchPlan) -> BatchResult {
-    let start = Instant::now();
-    let counter = AtomicU64::new(0);
-    let done = AtomicU64::new(0);
-    let capped = AtomicBool::new(false);
-    let keys: Mutex<BTreeSet<u64>> = Mutex::new(BTreeSet::new());
-    let samples: Mutex<BTreeMap<u64, Value>> = Mutex::new(BTreeMap::new());
-    let found: Mutex<BTreeMap<String, Found>> = Mutex::new(BTreeMap::new());
-    let herr: Mutex<Option<String>> = Mutex::new(None);
-    let logs: Mutex<BTreeMap<u64, u64>> = Mutex::new(BTreeMap::new());
-    let nworkers = jobs().max(1);
-    std::thread::scope(|s| {
-        for _ in 0..nworkers {
-            s.spawn(|| loop {
-                let i = counter.fetch_add(1, Ordering::SeqCst);
-                if i >= plan.runs || herr.lock().unwrap().is_some() {
-                    break;
-                }
-                if start.elapsed().as_secs() > plan.wall_cap_s {
-                    capped.store(true, Ordering::SeqCst);
-                    break;
-                }
-                let seed = mix(base_seed, i);
-                let case = w.generate(seed, tier);
-                let mut ctx = Ctx::new();
-                match w.execute(&case, &mut ctx) {
-                    Err(e) => {
-                        *herr.lock().unwrap() = Some(format!("run {i} seed {seed}: {}", e.0));
-                        break;
-                    }
-                    Ok(out) => {
-                        done.fetch_add(1, Ordering::SeqCst);
-                        let ld = fnv_str(&out.log.join("\n"));
-                        logs.lock().unwrap().insert(i, ld);
-                        if out.nontrivial {
-                            keys.lock().unwrap().insert(w.case_key(&case));
-                            let mut sm = samples.lock().unwrap();
-                            if sm.len() < 3 || (i < 3) {
-                                sm.insert(i, w.sample_view(&case));
-                                while sm.len() > 3 {
-                                    let last = *sm.keys().next_back().unwrap();
-                                    sm.remove(&last);
-                                }
-                            }
-                        }
-                        if let Some((sig, msg)) = out.violation {
-                            let mut f = found.lock().unwrap();
-                            let replace = match f.get(&sig) {
-                                Some(old) => old.index > i,
-                                None => true,
-                            };
-                            if replace {
-                                f.insert(
-                                    sig.clone(),
-                                    Found {
-                                        index: i,
-                                        seed,
-                                        signature: sig,
-                                        message: msg,
-                                        case: serde_json::to_value(&case).unwrap(),
-                                    },
-                                );
-                            }
-                        }
-                    }
-                }
-            });
+/// One worker process: executes runs start, start+stride, .. < runs single-threaded and prints one
+/// JSON line per run plus a final accounting line. (Worker *processes*, not threads: spawning
+/// children from a many-threaded parent serialises in the kernel.)
+pub fn worker_main<W: Workload>(w: &W, tier: Tier, base_seed: u64, start: u64, stride: u64, runs: u64, cap_s: u64) -> i32 {
+    use std::io::Write;
+    let t0 = Instant::now();
+    let out = std::io::stdout();
+    let mut i = start;
+    let mut code = 0;
+    while i < runs {
+        if t0.elapsed().as_secs() > cap_s {
+            let _ = writeln!(out.lock(), "CAPPED {i}");
+            break;
         }
-    });
+        let seed = mix(base_seed, i);
+        let case = w.generate(seed, tier);
+        let mut ctx = Ctx::new();
+        match w.execute(&case, &mut ctx) {
+            Err(e) => {
+                let _ = writeln!(out.lock(), "HERR run {i} seed {seed}: {}", e.0.replace('\n', " "));
+                code = 2;
+                break;
+            }
+            Ok(o) => {
+                let line = json!({
+                    "i": i,
+                    "seed": seed,
+                    "nontrivial": o.nontrivial,
+                    "key": w.case_key(&case),
+                    "log": fnv_str(&o.log.join("\n")),
+                    "violation": o.violation.as_ref().map(|(s, m)| json!({"sig": s, "msg": m, "case": serde_json::to_value(&case).unwrap()})),
+                    "sample": if i < 3 && o.nontrivial { w.sample_view(&case) } else { Value::Null },
+                });
+                let _ = writeln!(out.lock(), "RUN {line}");
+            }
+        }
+        i += stride;
+    }
+    let _ = writeln!(out.lock(), "ACCT {}", acct_raw_json());
+    let mut extra = serde_json::Map::new();
+    for (k, v) in w.extra_coverage() {
+        extra.insert(k, v);
+    }
+    let _ = writeln!(out.lock(), "EXTRA {}", Value::Object(extra));
+    crate::procsim::cleanup_scratch();
+    code
+}
+
+/// Execute runs 0..plan.runs over `jobs()` worker processes (static stride partition, so the set
+/// of runs and every verdict is independent of the worker count). Every failing run is collected
+/// (first occurrence of each signature, by lowest run index) so that listed known findings do not
+/// hide a different violation.
+pub fn run_batch<W: Workload>(w: &W, tier: Tier, base_seed: u64, plan: &BatchPlan) -> BatchResult {
+    use std::io::{BufRead, BufReader};
+    use std::process::{Command, Stdio};
+    let start = Instant::now();
+    let nworkers = (jobs().max(1) as u64).min(plan.runs.max(1));
+    let exe = std::env::current_exe().expect("current_exe");
+    let mut children = vec![];
+    for k in 0..nworkers {
+        let mut cmd = Command::new(&exe);
+        cmd.args([
+            "worker",
+            w.property(),
+            tier.name(),
+            &base_seed.to_string(),
+            &k.to_string(),
+            &nworkers.to_string(),
+            &plan.runs.to_string(),
+            &plan.wall_cap_s.to_string(),
+        ])
+        .stdin(Stdio::null())
+        .stdout(Stdio::piped())
+        .stderr(Stdio::inherit());
+        children.push(cmd.spawn().expect("spawn worker"));
+    }
+    let mut evaluations = 0u64;
+    let mut capped = false;
+    let mut keys: BTreeSet<u64> = BTreeSet::new();
+    let mut samples: BTreeMap<u64, Value> = BTreeMap::new();
+    let mut found: BTreeMap<String, Found> = BTreeMap::new();
+    let mut herr: Option<String> = None;
+    let mut logs: BTreeMap<u64, u64> = BTreeMap::new();
+    let mut accts: Vec<Value> = vec![];
+    let mut extras: Vec<Value> = vec![];
+    // read workers one after the other (pipes buffer; workers never block for long on a full pipe
+    // because lines are short except for violations)
+    let handles: Vec<_> = children
+        .into_iter()
+        .map(|mut ch| {
+            let so = ch.stdout.take().unwrap();
+            std::thread::spawn(move || {
+                let mut lines = vec![];
+                for l in BufReader::new(so).lines().map_while(Result::ok) {
+                    lines.push(l);
+                }
+                let st = ch.wait();
+                (lines, st.map(|s| s.code()).unwrap_or(None))
+            })
+        })
+        .collect();
+    for h in handles {
+        let (lines, code) = h.join().expect("worker reader");
+        if code != Some(0) && herr.is_none() {
+            herr = Some(format!("worker exited with {code:?}"));
+        }
+        for l in lines {
+            if let Some(j) = l.strip_prefix("RUN ") {
+                let Ok(v) = serde_json::from_str::<Value>(j) else { continue };
+                evaluations += 1;
+                let i = v["i"].as_u64().unwrap_or(0);
+                logs.insert(i, v["log"].as_u64().unwrap_or(0));
+                if v["nontrivial"].as_bool().unwrap_or(false) {
+                    keys.insert(v["key"].as_u64().unwrap_or(0));
+                }
+                if !v["sample"].is_null() {
+                    samples.insert(i, v["sample"].clone());
+                }
+                if !v["violation"].is_null() {
+                    let sig = v["violation"]["sig"].as_str().unwrap_or("").to_string();
+                    let replace = match found.get(&sig) {
+                        Some(old) => old.index > i,
+                        None => true,
+                    };
+                    if replace {
+                        found.insert(
+                            sig.clone(),
+                            Found {
+                                index: i,
+                                seed: v["seed"].as_u64().unwrap_or(0),
+                                signature: sig,
+                                message: v["violation"]["msg"].as_str().unwrap_or("").to_string(),
+                                case: v["violation"]["case"].clone(),
+                            },
+                        );
+                    }
+                }
+            } else if let Some(j) = l.strip_prefix("ACCT ") {
+                if let Ok(v) = serde_json::from_str::<Value>(j) {
+                    accts.push(v);
+                }
+            } else if let Some(j) = l.strip_prefix("EXTRA ") {
+                if let Ok(v) = serde_json::from_str::<Value>(j) {
+                    extras.push(v);
+                }
+            } else if l.starts_with("CAPPED") {
+                capped = true;
+            } else if let Some(e) = l.strip_prefix("HERR ") {
+                herr = Some(e.to_string());
+            }
+        }
+    }
     let mut log_digest = 0u64;
-    for (i, d) in logs.lock().unwrap().iter() {
+    for (i, d) in logs.iter() {
         log_digest = mix(log_digest, mix(*i, *d));
     }
-    let mut found: Vec<Found> = found.into_inner().unwrap().into_values().collect();
+    let mut found: Vec<Found> = found.into_values().collect();
     found.sort_by_key(|f| f.index);
-    let distinct = keys.lock().unwrap().len() as u64;
-    let herr_v = herr.into_inner().unwrap();
     BatchResult {
-        evaluations: done.load(Ordering::SeqCst),
-        distinct_nontrivial: distinct,
-        samples: samples.into_inner().unwrap().into_values().collect(),
+        evaluations,
+        distinct_nontrivial: keys.len() as u64,
+        samples: samples.into_values().take(3).collect(),
         found,
         wall_s: start.elapsed().as_secs_f64(),
-        capped: capped.load(Ordering::SeqCst),
-        harness_error: herr_v,
+        capped,
+        harness_error: herr,
         log_digest,
+        acct: merge_values(&accts),
+        extra: merge_values(&extras),
     }
+}
+
+/// merge per-worker statistics: numbers add (keys starting with "max" take the maximum), arrays
+/// of numbers add element-wise, arrays under "traces" are united, objects merge recursively
+pub fn merge_values(vs: &[Value]) -> Value {
+    fn merge(key: &str, a: &Value, b: &Value) -> Value {
+        match (a, b) {
+            (Value::Number(x), Value::Number(y)) => {
+                if let (Some(x), Some(y)) = (x.as_u64(), y.as_u64()) {
+                    if key.starts_with("max") {
+                        json!(x.max(y))
+                    } else {
+                        json!(x + y)
+                    }
+                } else {
+                    json!(x.as_f64().unwrap_or(0.0) + y.as_f64().unwrap_or(0.0))
+                }
+            }
+            (Value::Array(x), Value::Array(y)) if key == "traces" => {
+                let mut s: BTreeSet<u64> = x.iter().filter_map(|v| v.as_u64()).collect();
+                s.extend(y.iter().filter_map(|v| v.as_u64()));
+                json!(s.into_iter().collect::<Vec<_>>())
+            }
+            (Value::Array(x), Value::Array(y)) => {
+                let n = x.len().max(y.len());
+                Value::Array(
+                    (0..n)
+                        .map(|i| merge(key, x.get(i).unwrap_or(&json!(0)), y.get(i).unwrap_or(&json!(0))))
+                        .collect(),
+                )
+            }
+            (Value::Object(x), Value::Object(y)) => {
+                let mut o = x.clone();
+                for (k, v) in y {
+                    let nv = match o.get(k) {
+                        Some(old) => merge(k, old, v),
+                        None => v.clone(),
+                    };
+                    o.insert(k.clone(), nv);
+                }
+                Value::Object(o)
+            }
+            (Value::Null, v) | (v, Value::Null) => v.clone(),
+            (v, _) => v.clone(),
+        }
+    }
+    let mut acc = Value::Null;
+    for v in vs {
+        acc = merge("", &acc, v);
+    }
+    acc
 }
 
 /// Greedy structural minimisation: keep a smaller case whenever it still fails with the same
@@ -301,18 +435,16 @@ pub fn write_replay<W: Workload>(
     path.to_string_lossy().to_string()
 }
 
-pub fn acct_json() -> Value {
+/// this process's accounting in mergeable form
+pub fn acct_raw_json() -> Value {
     let a = acct();
-    let hooks = a.hook_hits.lock().unwrap().clone();
-    let hm = a.hook_multiworker.lock().unwrap().clone();
     json!({
         "simulated_processes": a.procs.load(Ordering::Relaxed),
         "simulated_time_scheduler_steps": a.steps.load(Ordering::Relaxed),
         "context_switches": a.switches.load(Ordering::Relaxed),
         "steps_with_more_than_one_runnable_task": a.multi_steps.load(Ordering::Relaxed),
         "max_concurrently_runnable_tasks": a.max_runnable.load(Ordering::Relaxed),
-        "distinct_interleavings": a.traces.lock().unwrap().len(),
-        "distinct_interleavings_measure": "distinct hashes of the recorded scheduler decision list (task choices and PRNG draws) over processes that had >1 runnable task at some step",
+        "traces": a.traces.lock().unwrap().iter().copied().collect::<Vec<u64>>(),
         "processes_with_more_than_one_runnable_task": a.procs_multi.load(Ordering::Relaxed),
         "joins": a.joins.load(Ordering::Relaxed),
         "steals": a.steals.load(Ordering::Relaxed),
@@ -322,12 +454,24 @@ pub fn acct_json() -> Value {
         "global_pool_implicitly_initialised": a.implicit_global.load(Ordering::Relaxed),
         "build_global_refused": a.build_global_refused.load(Ordering::Relaxed),
         "simulation_failures_deadlock_or_stepcap": a.sim_failures.load(Ordering::Relaxed),
-        "hook_site_hits": hooks,
-        "hook_site_processes_with_more_than_one_worker": hm,
+        "hook_site_hits": *a.hook_hits.lock().unwrap(),
+        "hook_site_processes_with_more_than_one_worker": *a.hook_multiworker.lock().unwrap(),
         "processes_by_subcommand": *a.by_cmd.lock().unwrap(),
         "faults_fired": *a.faults.lock().unwrap(),
         "probes": *a.probes.lock().unwrap(),
     })
+}
+
+/// merged accounting rendered for the evidence file
+pub fn acct_pretty(raw: &Value) -> Value {
+    let mut v = raw.clone();
+    if let Some(o) = v.as_object_mut() {
+        let n = o.get("traces").and_then(|t| t.as_array()).map(|a| a.len()).unwrap_or(0);
+        o.remove("traces");
+        o.insert("distinct_interleavings".into(), json!(n));
+        o.insert("distinct_interleavings_measure".into(), json!("distinct hashes of the recorded scheduler decision list (task choices and PRNG draws) over processes that had >1 runnable task at some step"));
+    }
+    v
 }
 
 pub const REAL_STUB: &str = "REAL: all of ska (cli, main, every module), rayon iterators/splitters, ndarray+hashbrown+indicatif rayon glue, dashmap, needletail, snap, ciborium, noodles-vcf, clap; Linux tmpfs and RLIMIT_FSIZE. STUB: rayon-core (simulated work-stealing core on shuttle), OS entropy (getrandom), ahash random source; SKASIM_CORES stands for the machine's core count.";
@@ -391,7 +535,7 @@ pub fn check<W: Workload>(w: &W, tier: Tier, plan: BatchPlan) -> i32 {
     }
     // evidence
     let hours = r.wall_s / 3600.0;
-    let procs = acct().procs.load(Ordering::Relaxed);
+    let procs = r.acct["simulated_processes"].as_u64().unwrap_or(0);
     let mut cov = serde_json::Map::new();
     cov.insert("evaluations".into(), json!(r.evaluations));
     cov.insert("distinct_nontrivial".into(), json!(r.distinct_nontrivial));
@@ -404,11 +548,13 @@ pub fn check<W: Workload>(w: &W, tier: Tier, plan: BatchPlan) -> i32 {
     cov.insert("simulated_processes_per_hour".into(), json!((procs as f64 / hours.max(1e-9)).round()));
     cov.insert("seeds".into(), json!(format!("run i uses mix(VERIF_SEED={seed}, i), i in 0..{}", r.evaluations)));
     cov.insert("event_log_digest".into(), json!(format!("{:016x}", r.log_digest)));
-    cov.insert("simulation".into(), acct_json());
+    cov.insert("simulation".into(), acct_pretty(&r.acct));
     cov.insert("real_vs_stub".into(), json!(REAL_STUB));
     cov.insert("known_findings_seen".into(), json!(known_hits));
-    for (k, v) in w.extra_coverage() {
-        cov.insert(k, v);
+    if let Some(o) = r.extra.as_object() {
+        for (k, v) in o {
+            cov.insert(k.clone(), v.clone());
+        }
     }
     let ev = json!({
         "property_id": w.property(),
